@@ -346,6 +346,9 @@ void gfree(gbuf_t *g) { if (g->map) munmap(g->map, g->maplen); g->map = NULL; }
 uint8_t *straddle_map(size_t half)
 {
         static int next;
+#if defined(VERIF_TSAN) || defined(VERIF_ASAN)
+        return NULL;    /* the sanitizer runtimes own the layout of the address space (TSan aborts on a fixed mapping outside its application ranges) */
+#endif
         half = (half + PG - 1) & ~(size_t) (PG - 1);
         for (int tries = 0; tries < 8; tries++) {
                 uint64_t k = 0x20 + (uint64_t) __atomic_fetch_add(&next, 1, __ATOMIC_RELAXED);
